@@ -69,6 +69,9 @@ access(all) contract Far {
     access(all) fun mkN(_ name: String, _ t: @T?): @N { return <- create N(name, <- t) }
     access(all) fun tagged(_ id: Int, _ l: String): @T { return <- attach Tag(l) to <- create T(id) }
     access(all) fun note(_ m: String, _ n: Int) { emit Note(msg: m, n: n) }
+    access(all) fun build(_ f: fun(Int, Int): P, _ a: Int): P { return f(a, a + 1) }
+    access(all) fun builder(): fun(Int, Int): P { return fun (_ x: Int, _ y: Int): P { return P(x, y) } }
+    access(all) fun bagger(): fun([Int]): Bag { return fun (_ xs: [Int]): Bag { return Bag(xs) } }
 }`},
 	{Name: "Holder", Src: `
 access(all) contract Holder {
@@ -886,6 +889,25 @@ var scenarios = []scenario{
         let sb = attach Multi.SI() to Multi.SB(%d)
         log(sb[Multi.SI]!.seen)
         destroy r`, n, n)), Expect: []string{fmt.Sprint(n), fmt.Sprint(3 * n), fmt.Sprint(n), fmt.Sprint(n + 1)}}}
+	}},
+	{"constructor-function-values", func(r *Rng) []scnStep {
+		a := r.Intn(100)
+		return []scnStep{{Kind: "script", Src: scnScript("import Far from 0x9\n", "[Int]", fmt.Sprintf(`    // constructors as function values, next to ordinary functions of the same signature, crossing program boundaries both ways
+    let mk = Far.P
+    let flip = fun (_ x: Int, _ y: Int): Far.P { return Far.P(y, x) }
+    let p1 = mk(%d, 2)
+    let p2 = Far.build(flip, %d)
+    let p3 = Far.build(fun (_ x: Int, _ y: Int): Far.P { return mk(x, y) }, %d)
+    let p4 = Far.builder()(7, 8)
+    let mkBag = Far.Bag
+    let b1 = mkBag([1, 2])
+    let b2 = Far.bagger()([3])
+    let fs: [fun(Int, Int): Far.P] = [flip, Far.builder()]
+    var t = 0
+    for f in fs { t = t + f(1, 2).x }
+    let cs = [mk, Far.P]
+    for c in cs { t = t + c(1, 2).y }
+    return [p1.x, p2.x, p3.y, p4.y, b1.xs.length, b2.xs.length, t]`, a, a, a)), Expect: []string{}}}
 	}},
 	{"resource-juggling", func(r *Rng) []scnStep {
 		a, b := r.Intn(100), 100+r.Intn(100)
